@@ -230,6 +230,9 @@ func (e *Explorer) Run(prefix []int) (x *Execution, err error) {
 		return nil, fmt.Errorf("too many threads")
 	}
 	x = &Execution{}
+	if e.States == nil {
+		e.States = map[uint64]struct{}{}
+	}
 	reset(n)
 	h.Init()
 	var wg sync.WaitGroup
